@@ -242,3 +242,38 @@ def run(ctx):
         if not (ok and ok2):
             r.violation(C, "run_rustfmt: --edition does not receive the group's key",
                         "the edition passed to rustfmt is not the key of the edition group being formatted", ["%s:%d" % (rr.file, rr.line)])
+    target_edition_is_the_targets_own(ctx, "R18-d")
+
+
+def target_edition_is_the_targets_own(ctx, rid):
+    """R18-d: the edition a file is formatted under is the edition cargo reports for its target"""
+    p, r = ctx.p, ctx.r
+    r.rule(rid, "every construction of cargo_fmt::Target takes its `edition` field from the `edition` field of the "
+                "cargo_metadata::Target it was built from (and `path` from that target's `src_path`): a `[[bin]]` or `[lib]` may "
+                "declare an edition of its own, and rustfmt is started once per edition with `--edition` — the edition of the "
+                "package, of the workspace or of anything else parses `async`/`dyn`/`gen` differently")
+    T = "cargo_fmt::Target"
+    n = 0
+    for f in p.by_crate["cargo_fmt"]:
+        for bb, i, s in f.stmts():
+            if not (s[0] == "=" and s[2][0] == "agg" and isinstance(s[2][1], list) and s[2][1][0] == "adt" and s[2][1][1] == T):
+                continue
+            if "tests" in f.id or f.id.startswith("cargo_fmt::cargo_fmt_tests") or "::targets::" in f.id:
+                continue
+            n += 1
+            ops = s[2][2]
+            if len(ops) < 3 or ops[2][0] == "k":
+                src = set()
+            else:
+                d = f.derived_from(ops[2][1][0])
+                src = {(x[0], str(x[2])) for x in d["fields"]} | {(e[2], str(e[4])) for e in ops[2][1][1] if isinstance(e, list) and e[0] == "f"}
+            own = ("cargo_metadata::Target", "edition") in src
+            foreign = sorted(x for x in src if x[1] == "edition" and x[0] != "cargo_metadata::Target")
+            ok = own and not foreign
+            r.instance(rid, "%s builds a Target" % short(f.id), "ok" if ok else "violation", "%s:%d" % (f.file, s[3]),
+                       "edition from %s" % sorted(x for x in src if x[1] == "edition"))
+            if not ok:
+                r.violation(rid, "%s: Target.edition is not the target's own edition" % short(f.id),
+                            "the field derives from %s" % (foreign or sorted(src)[:4] or "a constant"), ["%s:%d" % (f.file, s[3])])
+    r.floor(rid, n, 1, "constructions of cargo_fmt::Target outside the tests")
+
